@@ -82,6 +82,19 @@ CHECKS = {
              'generators (known finding F5).',
         technique='Rocq proof (naturality) for the symbol-class option + differential option-matrix correspondence for the rest',
         ref='DESIGN.md 4 (C13)'),
+    'C14': dict(
+        text='Theorems (Theory/Relabel.v) for any two well-formed algebras A, D with equal signature list and start index (D = the default '
+             'basis): phi(e_I) := the ordered product in D of the generators of A\'s spelling of I = phi_sign e_{phi_key}; phi_key is a '
+             'grade-preserving bijection commuting with xor (pss to pss), phi_sign = +-1 the parity between the spellings; TABLE ISOMORPHISM '
+             'phi_sign I phi_sign J sgn_D(phi I, phi J) = sgn_A(I,J) phi_sign(I xor J); over every commutative ring relabel commutes with gp, op, '
+             'ip, lc, rc, sp, cp, acp, add, sub, neg, the three involutions, grade selection (same errors), and with hodge, unhodge, polarity, '
+             'unpolarity, dual/undual (all kinds, same errors) and rp up to the orientation of the custom pseudoscalar; coefficient access with '
+             'any spelling is invariant; 2DPGA, 3DPGA, STAP are instances.  PARTIAL: inverse/division commute only as far as C07 is proved; the '
+             'matrix clause is refuted for custom bases (known finding F10).  Rejection clause and all operators incl. inverse: differential '
+             'check relabel(op_custom(x, y)) = op_default(relabel x, relabel y) on the real kingdon; the model\'s phi_key / phi_sign / table '
+             'equation are evaluated in Coq against the implementation for every explored basis.',
+        technique='Rocq proof (closed form of the computed sign, re-indexing of finite sums along the key bijection) + in-Coq and differential correspondence',
+        ref='DESIGN.md 4 (C14)'),
     'C16': dict(
         text='Theorems: the operand-order table of all infix/reflected dunders is re-derived from multivector.py on every run and proved to '
              'keep (left, right); indexing array-valued coefficients commutes literally with every operator (pointwise structure).  '
